@@ -239,9 +239,9 @@ theorem identify_spec (res : List Atom) (edges : List (Int × Int)) (mods : List
 
 /-- One iteration of the loop of `fix_ptm`, for the groups `groups` with key `key`.  It ends in one of
 two ways.
-(removal) a warning naming exactly the removed atoms is added, those atoms are no longer in the
-molecule, nothing else is removed, and every atom of every group without input annotations is among
-them;
+(removal) a warning naming the atoms `rm` of the groups is added, exactly the atoms of `rm` that are
+flagged `PTM_atom` are removed (recognised atoms that merely carry an annotation stay), nothing else is
+removed, and every atom of every group without input annotations is in `rm`;
 (labelling) no atom is removed, no warning is added, every atom of every group is in a chosen
 placement — for groups without input annotations in exactly one placement of the cover when it is a
 PTM atom — and every atom of the residues of the key that is still in the molecule carries the
@@ -252,9 +252,9 @@ theorem step_label_or_remove (mods : List Modif) (orig : List Atom) (s : St) (ke
     let nIdxs := (orig.filter fun a => key.contains a.resid).map (·.key)
     let res := s.mol.atoms.filter fun a => nIdxs.contains a.key
     ∃ s', step mods orig s key groups given = .done s' ∧
-      ((∃ rm l, s'.warnings = s.warnings ++ [rm] ∧ s'.removed = s.removed ++ rm
+      ((∃ rm l, s'.warnings = s.warnings ++ [rm] ∧ s'.removed = s.removed ++ rm.filter (isFlagged s.mol)
           ∧ s'.log = s.log ++ [l] ∧ l.result = none
-          ∧ (∀ a, a ∈ s'.mol.keys ↔ a ∈ s.mol.keys ∧ a ∉ rm)
+          ∧ (∀ a, a ∈ s'.mol.keys ↔ a ∈ s.mol.keys ∧ ¬ (a ∈ rm ∧ isFlagged s.mol a = true))
           ∧ ∀ g ∈ groups, usedOf annot g = [] → ∀ a ∈ g.atoms, a ∈ rm)
       ∨ (∃ used cov l, s'.warnings = s.warnings ∧ s'.removed = s.removed
           ∧ s'.log = s.log ++ [l] ∧ l.result = some (used, cov)
@@ -275,7 +275,7 @@ theorem step_label_or_remove (mods : List Modif) (orig : List Atom) (s : St) (ke
     rw [hid] at hspec
     refine ⟨_, rfl, Or.inl ⟨rm, _, rfl, rfl, rfl, rfl, ?_, hspec⟩⟩
     intro a
-    exact mem_removeAtoms_keys s.mol rm a
+    rw [mem_removeAtoms_keys, List.mem_filter]
   | ok used cov =>
     rw [hid] at hspec
     refine ⟨_, rfl, Or.inr ⟨used, cov, _, rfl, rfl, rfl, rfl, ?_, hspec.1, hspec.2.1, ?_⟩⟩
@@ -322,7 +322,7 @@ theorem label_or_remove_partial (mods : List Modif) (orig : List Atom) :
         · have : a ∈ rm := by
             apply Classical.byContradiction
             intro hnr
-            exact h1 ((h5 a).2 ⟨ha, hnr⟩)
+            exact h1 ((h5 a).2 ⟨ha, fun h => hnr h.1⟩)
           exact ⟨rm, hw rm (by rw [hwarn]; simp), this⟩
         · rw [h5] at h1; exact absurd ha h1
 
@@ -410,7 +410,7 @@ theorem runIters_own (mods : List Modif) (orig : List Atom) (horig : (orig.map (
         have harm : a0.key ∈ rm := hall g0 hg0 hu0 _ hag0
         refine ⟨?_, rm, hl2.warns rm (by rw [hw]; simp), harm⟩
         rw [hk2, hkeys]
-        exact fun h => h.2 harm
+        exact fun h => h.2 ⟨harm, (isFlagged_eq horig hinv ha0 hin).trans hp⟩
       · right
         have hnp := flagged_not_nonPtm horig hinv ha0 hp
           (fun a => ((orig.filter fun a => key.contains a.resid).map (·.key)).contains a.key)
@@ -579,6 +579,40 @@ theorem label_or_remove_flagged (m : Mol) (mods : List Modif) (given : List (Lis
     | none => rfl
     | some y => simp [hno y (List.mem_of_find?_eq_some hf)]
   simp [this, dedupNat]
+
+/-- `template_atoms_kept`: an atom the residue templates account for (not flagged `PTM_atom` in the
+input) is never removed by `fix_ptm`, whatever annotations it carries and whatever happens to the
+groups it belongs to. -/
+theorem template_atoms_kept (m : Mol) (mods : List Modif) (given : List (List (List Placement)))
+    (hk : m.keys.Nodup) :
+    ∃ s, fixPtm m mods given = .done s ∧ ∀ a0 ∈ m.atoms, a0.ptm = false → a0.key ∈ s.mol.keys := by
+  have key : ∀ (its : List (List Int × List Group)) (s : St) (given : List (List (List Placement))),
+      Inv m.atoms s → ∃ s' : St, runIters mods m.atoms s its given = .done s' ∧
+        ∀ a0 ∈ m.atoms, a0.ptm = false → a0.key ∈ s.mol.keys → a0.key ∈ s'.mol.keys := by
+    intro its
+    induction its with
+    | nil => intro s given _; exact ⟨s, rfl, fun _ _ _ h => h⟩
+    | cons it its ih =>
+      intro s given hinv
+      obtain ⟨key, groups⟩ := it
+      obtain ⟨s1, hs1, hinv1, _, _⟩ := step_frame mods m.atoms s key groups (given.headD []) hinv
+      obtain ⟨s1', hs1', hcase⟩ := step_label_or_remove mods m.atoms s key groups (given.headD [])
+      rw [hs1] at hs1'
+      cases hs1'
+      obtain ⟨s2, hs2, h2⟩ := ih s1 given.tail hinv1
+      refine ⟨s2, by simp only [runIters, hs1, hs2], ?_⟩
+      intro a0 ha0 hp hin
+      apply h2 a0 ha0 hp
+      rcases hcase with ⟨rm, l, _, _, _, _, hkeys, _⟩ | ⟨u, c, l, _, _, _, _, hkeys, _⟩
+      · rw [hkeys]
+        refine ⟨hin, fun h => ?_⟩
+        have := (isFlagged_eq hk hinv ha0 hin).symm.trans h.2
+        rw [hp] at this
+        cases this
+      · rw [hkeys]; exact hin
+  obtain ⟨s, hs, h⟩ := key (iterations m) { mol := m, removed := [], warnings := [], log := [] } given
+    (List.Sublist.refl _)
+  exact ⟨s, hs, fun a0 ha0 hp => h a0 ha0 hp (List.mem_map.2 ⟨a0, ha0, rfl⟩)⟩
 
 /-! ## renaming -/
 
